@@ -173,6 +173,39 @@ example : (match tokenize (b "{{ 'it\\'s' }}") with
     | some r => r.toks.map (fun t => (t.ty, t.lit)) == [(.LBRACES, b "{{"), (.STR, b "it's"), (.RBRACES, b "}}"), (.EOF, [])]
     | none => false) = true := by decide
 
+/-- **an unterminated string**: in code, at a quote with no closing quote before the end of the
+    input, the lexer makes one STR token of everything that is left — it covers the rest of the
+    input to its last byte, its literal is the text after the opening quote (escaped quotes
+    unescaped), and the lexer is at the end of the input afterwards -/
+theorem unterminated_string_runs_to_the_end (s : Lx) (hh : s.isHTML = false) (q : Byte) (after : Bytes)
+    (hq : q = 34 ∨ q = 39) (hr : s.rest = q :: after) (hopen : s.rest.length < (strSpan s.rest).1) :
+    ∃ t n, stepAt s = (.tok t, (stepAt s).2) ∧ t.ty = .STR ∧ s.rest.take n = s.rest ∧
+      t.lit = replaceAll after [92, q] [q] ∧ (stepAt s).2.rest = [] := by
+  have hc : s.char = q := by simp [Lx.char, hr]
+  have hne : s.rest ≠ [] := by rw [hr]; simp
+  have hb : ¬ (s.char = 123 ∧ s.peek = 123) := by
+    rw [hc]; rcases hq with h | h <;> subst h <;> simp
+  have hstep := stepAt_code s hh hne hb
+  have hcs : codeStepDesc s = strDesc s := by
+    unfold codeStepDesc
+    have : ¬ (s.char == 125 && s.peek == 125 && s.braces == 0) = true := by
+      rw [hc]; rcases hq with h | h <;> subst h <;> simp
+    rw [if_neg this]
+    exact codeDesc_string s (by rw [hc]; exact hq)
+  obtain ⟨h1, h2, h3⟩ := strDesc_unterminated s q after hr hopen
+  refine ⟨(strDesc s).emit.1, (strDesc s).n, ?_, ?_, h2, ?_, ?_⟩
+  · rw [hstep, hcs]
+  · unfold TokDesc.emit; rw [emit_ty]; exact h1
+  · unfold TokDesc.emit; rw [emit_lit]; exact h3
+  · rw [hstep, hcs]; unfold TokDesc.emit; rw [emit_rest]
+    show s.rest.drop (strSpan s.rest).1 = []
+    exact List.drop_eq_nil_of_le (Nat.le_of_lt hopen)
+
+example : (match tokenize (b "{{ 'it\\'s }}") with
+    | some r => r.toks.map (fun t => (t.ty, t.lit)) == [(.LBRACES, b "{{"), (.STR, b "it's }}"), (.EOF, [])]
+    | none => false) = true := by decide
+
+
 /-! non-vacuity: a concrete input with multi-line text, a string with a newline, a comment -/
 
 example : Gap (b " \n\t{{-- a --}} {{-- b") := by
